@@ -2,6 +2,7 @@
 //! See /verif/DESIGN.md. Invoked through /verif/bin/check.
 
 mod c01;
+mod c03;
 mod c05;
 mod c06;
 mod c08;
@@ -24,7 +25,7 @@ mod val;
 use common::*;
 
 fn all_families() -> Vec<Box<dyn Family>> {
-  vec![Box::new(c08::C08), Box::new(c18::C18), Box::new(c09::C09), Box::new(c12::C12), Box::new(thr_ops::C19Ops), Box::new(thr_ops::C19Subjects), Box::new(thr_ops::C11), Box::new(timed::C16), Box::new(timed::C15), Box::new(c01::C01), Box::new(c05::C05Seq), Box::new(c05::C05Thr), Box::new(c06::C06), Box::new(c17::C17), Box::new(c14::C14), Box::new(c10::C10), Box::new(c13::C13), Box::new(c13::C13Thr)]
+  vec![Box::new(c08::C08), Box::new(c18::C18), Box::new(c09::C09), Box::new(c12::C12), Box::new(thr_ops::C19Ops), Box::new(thr_ops::C19Subjects), Box::new(thr_ops::C11), Box::new(timed::C16), Box::new(timed::C15), Box::new(c01::C01), Box::new(c05::C05Seq), Box::new(c05::C05Thr), Box::new(c06::C06), Box::new(c17::C17), Box::new(c14::C14), Box::new(c10::C10), Box::new(c13::C13), Box::new(c13::C13Thr), Box::new(c03::C03), Box::new(c03::C03Rsg)]
 }
 
 fn spec_for(prop: &str) -> Option<CheckSpec> {
@@ -40,6 +41,22 @@ fn spec_for(prop: &str) -> Option<CheckSpec> {
         "single driver task: the sequential interleavings of several hot sources' scripts are the generated step order".into(),
       ],
       families: vec![FamilySpec { fam: Box::new(c01::C01), quick_runs: 400_000, thorough_runs: 6_000_000 }],
+      quick_cap_s: 60,
+      thorough_cap_s: 900,
+    }),
+    "C03" => Some(CheckSpec {
+      property: "C03",
+      level: "exploration",
+      rule: seq_rule.to_string(),
+      assumptions: vec![
+        "stage-wise refinement: the reference model of the judged combinator is evaluated on the histories recorded by probe stages on its input edges and must allow the history recorded on its output edge; the other operators are context and need no reference".into(),
+        "may-sets where the statement is silent: zip/combine_latest may complete from the first input completion on and must once all completed; terminals of a take_until/skip_until/sample trigger need not have an effect, completion is allowed; switch_on_next is exercised but not judged".into(),
+        "the context above the judged operator cannot end early (map/tap/materialize only)".into(),
+      ],
+      families: vec![
+        FamilySpec { fam: Box::new(c03::C03), quick_runs: 400_000, thorough_runs: 6_000_000 },
+        FamilySpec { fam: Box::new(c03::C03Rsg), quick_runs: 20_000, thorough_runs: 200_000 },
+      ],
       quick_cap_s: 60,
       thorough_cap_s: 900,
     }),
